@@ -2954,3 +2954,7 @@ mod tests {
         assert_eq!(Int32Type::parse("3"), Some(3));
     }
 }
+
+#[cfg(kani)]
+#[path = "/verif/kani/arrow-cast/parse.rs"]
+mod verif_kani;
